@@ -43,6 +43,11 @@ def run_case(case):
         raise ValueError(x)
 
     @prof
+    def boom_base(exc):
+        obs()
+        raise exc()
+
+    @prof
     def outer(x):
         obs()
         try:
@@ -88,6 +93,14 @@ def run_case(case):
             try:
                 boom(1)
             except ValueError:
+                pass
+        elif name in ('call_exit', 'call_kbint', 'call_cancel', 'call_genexit'):
+            # the decorated call is left by an exception that is not an `Exception` (sys.exit(), an interrupt, a cancelled task)
+            import asyncio
+            exc = {'call_exit': SystemExit, 'call_kbint': KeyboardInterrupt, 'call_cancel': asyncio.CancelledError, 'call_genexit': GeneratorExit}[name]
+            try:
+                boom_base(exc)
+            except BaseException:   # noqa
                 pass
         elif name == 'nested':
             outer(op[1])
